@@ -147,6 +147,8 @@ func init() {
 		}
 		n, pulled, err := decodeInto(e, y, entry, data, optInt(a[3:], "chunk", 0))
 		if err != nil {
+			// a failed round trip leaves no object behind (on either side of the comparison), so that the script can go on
+			delete(e.bm, a[0])
 			return "err:" + spaceless(err.Error())
 		}
 		e.bm[a[0]] = y
@@ -155,7 +157,12 @@ func init() {
 		if verr := y.Validate(); verr != nil {
 			v = "invalid:" + spaceless(verr.Error())
 		}
-		return fmt.Sprintf("%s %d %d %d %s %s", d32(y), n, pulled, len(bs), v, bstr(y.Equals(x)))
+		eq := y.Equals(x)
+		counted := !(entry == "unmarshal" || entry == "base64" || entry == "frozen")
+		if v != "ok" || !eq || d32(y) != d32(x) || (counted && n != int64(len(bs))) || (pulled != -1 && pulled != len(bs)) {
+			delete(e.bm, a[0])
+		}
+		return fmt.Sprintf("%s %d %d %d %s %s", d32(y), n, pulled, len(bs), v, bstr(eq))
 	})
 	// wrfail x off : WriteTo into a writer that fails after `off` bytes
 	reg("wrfail", func(e *env, a []string) string {
@@ -198,9 +205,14 @@ func init() {
 		if err != nil {
 			panic(skipErr{"bad hex"})
 		}
-		delete(e.bm, a[0])
 		y := roaring.New()
-		n, _, derr := decodeInto(e, y, a[1], data, 0)
+		if hasTok(a[4:], "reuse") {
+			if old, ok := e.bm[a[0]]; ok {
+				y = old
+			}
+		}
+		delete(e.bm, a[0])
+		n, _, derr := decodeInto(e, y, a[1], data, optInt(a[4:], "chunk", 0))
 		if derr != nil {
 			return "err:" + spaceless(derr.Error())
 		}
